@@ -13,6 +13,7 @@ import (
 	"time"
 
 	conformancev1 "connectrpc.com/conformance/internal/gen/proto/go/connectrpc/conformance/v1"
+	"connectrpc.com/conformance/internal/tracer"
 	"google.golang.org/protobuf/proto"
 )
 
@@ -33,6 +34,11 @@ func vfStartRefServer(version conformancev1.HTTPVersion) (*vfRefServer, error) {
 }
 
 func vfStartRefServerWith(req *conformancev1.ServerCompatRequest) (*vfRefServer, error) {
+	return vfStartRefServerTraced(req, nil)
+}
+
+// vfStartRefServerTraced: with a tracer the server wraps every request in the HTTP tracing middleware (connectconformance --trace).
+func vfStartRefServerTraced(req *conformancev1.ServerCompatRequest, trace *tracer.Tracer) (*vfRefServer, error) {
 	ctx, cancel := context.WithCancel(context.Background())
 	inR, inW := io.Pipe()
 	outR, outW := io.Pipe()
@@ -48,7 +54,7 @@ func vfStartRefServerWith(req *conformancev1.ServerCompatRequest) (*vfRefServer,
 		}
 	}()
 	go func() {
-		err := RunInReferenceMode(ctx, []string{"reference-server", "-port", "0", "-bind", "127.0.0.1"}, inR, outW, errW, nil)
+		err := RunInReferenceMode(ctx, []string{"reference-server", "-port", "0", "-bind", "127.0.0.1"}, inR, outW, errW, trace)
 		_ = outW.Close()
 		_ = errW.Close()
 		s.done <- err
